@@ -232,3 +232,6 @@ func TimerPending(t any) bool { return false }
 
 // Quiesce lets every other goroutine run until none of them can make progress (timers excluded).
 func Quiesce() {}
+
+// Ghost reads an engine-side ghost counter (e.g. "otter.closed"); natively 0.
+func Ghost(name string) int { return 0 }
